@@ -22,7 +22,7 @@ FUNCS = ['generate_sum_n_bits', 'generate_sum_weighted_bits_efficient', 'generat
          'add_sum_two_numbers', 'add_sum_two_numbers_with_shift', 'add_sum_pow2_m1']
 REQUIRED = {('mon:%s.checked' % f): 15 for f in FUNCS}
 REQUIRED.update({'basis:AIG/enum': 20, 'basis:AIG/str': 20, 'basis:XAIG/str': 10, 'host:internal': 50, 'host:inputs': 50,
-                 'shift:above': 5, 'shift:equal': 5, 'shift:below': 10, 'endian:big': 30})
+                 'shift:above': 5, 'shift:equal': 5, 'shift:below': 10, 'endian:big': 30, 'live_operand_list': 10})
 
 MOD = 'cirbo.synthesis.generation.arithmetics.summation'
 
@@ -295,6 +295,15 @@ def check_case(case, ctx):
                 c = netgen.build(host)
             ctx.count('host:' + case['mode'])
             ops = case['operands']
+            if case.get('live') and len(ops) == 1:
+                # the caller's own list object: the live input / output list of the host (generate_* do this)
+                if case['live'] == 'inputs':
+                    ops = [c.inputs]
+                else:
+                    with monitor.suspended():
+                        c.set_outputs(list(ops[0]))
+                    ops = [c.outputs]
+                ctx.count('live_operand_list')
             if f == 'add_sum2':
                 ar.add_sum2(c, ops[0])
             elif f == 'add_sum3':
@@ -364,6 +373,12 @@ def gen_case(rng, spec):
         case['shift'] = rng.choice([0, 1, max(wa - 1, 0), wa, wa + 1, wa + 3, 2 * wa + 2])
     else:
         case['operands'] = [A.pick_bits(rng, host, n, mode)]
+    if len(case['operands']) == 1 and f in ('add_sum_n_bits', 'add_sum_n_bits_easy', 'add_sum_pow2_m1') and rng.random() < 0.3:
+        case['live'] = rng.choice(['inputs', 'outputs'])
+    if rng.random() < 0.5:
+        host2 = A.add_operand_users(host, case['operands'], rng)
+        case['host'] = netgen.describe(host2)
+        case['operand_users'] = True
     return case
 
 
